@@ -3,6 +3,7 @@ import scipy.sparse as sparse
 from sklearn.linear_model import LogisticRegression
 from sklearn.base import BaseEstimator, ClassifierMixin, clone
 from sklearn.linear_model._base import LinearClassifierMixin
+from .. import _verif
 
 
 def logistic(x):
@@ -103,6 +104,10 @@ class _DecisionTreeLogisticRegressionNode:
         :param total_N: total number of observation
         :return: last index
         """
+        if _verif.ENABLED:
+            _verif.emit(
+                "dtlr_enter", index=int(self.index), depth=int(self.depth), n=int(X.shape[0])
+            )
         self.estimator.fit(X, y, sample_weight=sample_weight)
         if dtlr.verbose >= 1:
             print(
@@ -116,8 +121,19 @@ class _DecisionTreeLogisticRegressionNode:
         prob = self.fit_improve(dtlr, total_N, X, y, sample_weight=sample_weight)
 
         if self.depth + 1 > dtlr.max_depth:
+            if _verif.ENABLED:
+                _verif.emit(
+                    "dtlr_exit", index=int(self.index), reason="max_depth", last=int(self.index)
+                )
             return self.index
         if X.shape[0] < dtlr.min_samples_split:
+            if _verif.ENABLED:
+                _verif.emit(
+                    "dtlr_exit",
+                    index=int(self.index),
+                    reason="min_samples_split",
+                    last=int(self.index),
+                )
             return self.index
 
         above = prob[:, 1] > self.threshold
@@ -159,6 +175,19 @@ class _DecisionTreeLogisticRegressionNode:
 
         self.above, last = _fit_side(self.index + 1, y_above, above, n_above, "above")
         self.below, last = _fit_side(last + 1, y_below, below, n_below, "below")
+        if _verif.ENABLED:
+            _verif.emit(
+                "dtlr_exit",
+                index=int(self.index),
+                reason="split",
+                n_above=int(n_above),
+                n_below=int(n_below),
+                ncls_above=len(y_above),
+                ncls_below=len(y_below),
+                above=-1 if self.above is None else int(self.above.index),
+                below=-1 if self.below is None else int(self.below.index),
+                last=int(last),
+            )
         return last
 
     @property
